@@ -48,6 +48,8 @@ RULE = (
     'paused routine whose old wake-up is still pending, or a tempo change '
     'while another routine sleeps on that clock, or two seeded routines '
     'drawing. Distinct by sha1 of program + tape.')
+RULE += ' ' + (
+    "Seeds are ints or strings (the RT and NRT interpreters run with different PYTHONHASHSEED); a quarter of the controllers start by pausing and resuming a pending routine and then changing its clock's tempo.")
 ASSUMPTIONS = [
     'Random-stream independence is asserted for explicitly seeded routines '
     '(routines that inherit share their parent\'s generator by design).',
